@@ -94,6 +94,10 @@ fn stale_state(state: &HashMap<String, String>) -> HashMap<String, String> {
                 let url = crate::oracle::md::rel_url(t, &dir);
                 pre.push_str(&format!("[stale]({})\n\nwas [linked]({}) here\n\n", url, url));
             }
+            // …and another title: the first heading of the stale version is not the note's own
+            if !pre.is_empty() {
+                pre = format!("# stale title of {}\n\n{}", k.replace('/', " "), pre);
+            }
             ((*k).clone(), format!("{}{}", pre, state[*k]))
         })
         .collect()
@@ -149,9 +153,41 @@ pub fn server_with(state: &HashMap<String, String>, ext: &str, sequential: bool)
             } else {
                 server.handle_did_save_text_document(DidSaveTextDocumentParams { text_document: TextDocumentIdentifier { uri: uri(k) }, text: Some(state[k].clone()) });
             }
+            // between the edits an editor keeps asking: whatever the server remembers from an answer given in an
+            // intermediate state must not show in the answers about the final state
+            if nkeys <= 6 {
+                warm(&server, state);
+            }
         }
     }
     server
+}
+
+/// read-only requests of every family on every note (answers ignored, panics too: C03 / C12 judge those)
+pub fn warm(server: &Server, state: &HashMap<String, String>) {
+    for k in state.keys() {
+        let td = TextDocumentIdentifier { uri: uri(k) };
+        let _ = dump::catch(|| server.handle_document_formatting(DocumentFormattingParams { text_document: td.clone(), options: FormattingOptions::default(), work_done_progress_params: Default::default() }));
+        let _ = dump::catch(|| server.handle_inlay_hints(InlayHintParams { text_document: td.clone(), range: Range::default(), work_done_progress_params: Default::default() }));
+        let _ = dump::catch(|| server.handle_document_symbols(DocumentSymbolParams { text_document: td.clone(), work_done_progress_params: Default::default(), partial_result_params: Default::default() }));
+        let _ = dump::catch(|| {
+            server.handle_completion(CompletionParams {
+                text_document_position: TextDocumentPositionParams { text_document: td.clone(), position: Position::new(0, 0) },
+                work_done_progress_params: Default::default(),
+                partial_result_params: Default::default(),
+                context: None,
+            })
+        });
+        let _ = dump::catch(|| {
+            server.handle_references(ReferenceParams {
+                text_document_position: TextDocumentPositionParams { text_document: td.clone(), position: Position::new(0, 0) },
+                work_done_progress_params: Default::default(),
+                partial_result_params: Default::default(),
+                context: ReferenceContext { include_declaration: false },
+            })
+        });
+    }
+    let _ = dump::catch(|| server.handle_workspace_symbols(WorkspaceSymbolParams { query: String::new(), ..Default::default() }));
 }
 
 pub fn uri(key: &str) -> Url {
